@@ -10,6 +10,7 @@ CONSTANTS
   DevNoDispatchedFlag = FALSE
   DevTitanSkipsChain = FALSE
   DevSilentDeny = FALSE
+  DevVerbatimRefusal = FALSE
   DevRawResponse = FALSE
 CONSTRAINT Report
 PROPERTY TimeoutHarmless
